@@ -99,5 +99,6 @@ struct _table_propeller table_propeller[] =
   { "waitcnt", 0xf8800000, 0xfc000000, PROPELLER_OP_DS, 6, 0 },
   { "waitvid", 0xfc000000, 0xfc000000, PROPELLER_OP_DS, 4, 0 },
   { "nop",     0x00000000, 0x003c0000, PROPELLER_OP_NOP, 4, 4 },
+  { NULL, 0, 0, 0, 0, 0 }
 };
 
